@@ -8,6 +8,20 @@ ALL = [f"C{i:02d}" for i in range(1, 21)]
 
 # id -> (technique, level text, level note, design ref)
 CHECKS = {
+    "C15": (
+        "complete enumeration of the finite constant table x names x suffixes x unit-system registries, plus all "
+        "defining relations, against independent reference values and EM counterpart factors",
+        "All 34 constants x all alias names x {plain, _mks, _cgs} are compared as quantities (SI magnitude and "
+        "dimension, or the independently typed CGS/SI electromagnetic counterpart factor) in the default namespace "
+        "and in namespaces built by add_constants for a registry with each of the 7 built-in and 2 generated unit "
+        "systems; 15 defining relations (hbar, eps_0*mu_0*c^2, sigma, a, R_inf, Ry, Planck and geometrized units) are "
+        "evaluated; every name that is both a unit string and a constant is found by intersection and compared; each "
+        "value is compared with an independently typed reference within its uncertainty class. The space is finite "
+        "and enumerated completely.",
+        "Trusted base: reference values (CODATA 2018, IAU, Standish 1995 ratios) and class tolerances in "
+        "/verif/mc/ref/deftable.py; EM factors typed from the Gaussian definitions.",
+        "DESIGN.md section 6 C15",
+    ),
     "C20": (
         "exhaustive enumeration of the token language up to a length, of the 1-edit neighbourhood of a corpus and of "
         "the printed forms of an algebraic closure, under a harness-side vocabulary monitor",
